@@ -224,6 +224,12 @@ def gen_world(rng, rich=True, natives=True, max_depth=3):
             if ncl:
                 defined.append((name, ar))
         callable_preds = callable_preds + defined
+    if rng.random() < 0.1:
+        # a clause that puts a query variable at the head of a long alias chain whose far end is then
+        # bound several times (reads of the head between the answers must stay side-effect free)
+        depth = rng.choice(['s(s(s(s(z))))', 's(s(s(s(s(z)))))', 's(s(s(s(s(s(s(s(z))))))))'])
+        tail = rng.choice(['q(W)', 'r(W)', 's(W,Y)', 's(Y,W)', 'm(W,[a,b,c])', '(W = a ; W = b)'])
+        rules.insert(rng.randrange(len(rules) + 1), 'p(X,Y) :- lnk(%s,X,W), %s.' % (depth, tail))
     native = []
     if natives:
         for n, a, rows in facts:
@@ -275,7 +281,7 @@ def make_native(yp, unify, rows, arity, style, yield_value, ctl):
         ctl['args'].append(tuple(type(a).__name__ for a in args))
         ctl['live'] = ctl.get('live', 0) + 1
         try:
-            if ctl['fault'] == (me, 'pre'):
+            if ctl['fault'] is not None and tuple(ctl['fault'][:2]) == (me, 'pre'):
                 ctl['fired'] = ctl.get('fired', 0) + 1
                 raise ctl['exc']
             if len(args) != arity:
@@ -292,7 +298,7 @@ def make_native(yp, unify, rows, arity, style, yield_value, ctl):
                             yield from rec(i + 1)
                 for v in rec(0):
                     yield v
-                    if ctl['fault'] == (me, 'resume'):
+                    if ctl['fault'] is not None and tuple(ctl['fault'][:2]) == (me, 'resume'):
                         ctl['fired'] = ctl.get('fired', 0) + 1
                         raise ctl['exc']
         finally:
